@@ -251,6 +251,10 @@ func staticRounds(tr *Trace) {
 							if cls != "absent" {
 								p := ethnode.PeerInfo{ID: peerIDs[i]}
 								p.Network.RemoteAddress = hostOf(cls, i)
+								if (target+i)%2 == 1 {
+									p.ID = strings.Repeat("9", 63) + fmt.Sprint(i)
+									p.Enode = "enode://" + peerIDs[i] + "@" + hostOf(cls, i)
+								}
 								node.peers = append(node.peers, p)
 							}
 						}
@@ -364,6 +368,12 @@ func runAgentTable(args []string) {
 										if cls != "absent" {
 											p := ethnode.PeerInfo{ID: peerIDs[i]}
 											p.Network.RemoteAddress = hostOf(cls, i)
+											if (n+i)%2 == 1 || (i == 1 && n%3 == 1) {
+												// the way newer geth reports a peer: "id" is a hash, the public key is only in "enode";
+												// the peer's identity is the same, so the round must be the same
+												p.ID = strings.Repeat("9", 63) + fmt.Sprint(i)
+												p.Enode = "enode://" + peerIDs[i] + "@" + hostOf(cls, i)
+											}
 											node.peers = append(node.peers, p)
 										}
 									}
